@@ -11,12 +11,26 @@ of lists, in every reachable state.
 -/
 namespace RaftModel.P
 
+/-- every list of entries held inside one node: logs, images, acknowledged prefixes (generated,
+covered by an image, covered by the durable image), voters' logs recorded with generated grants -/
+def nodeLists (n : PNode) (l : List LEntry) : Prop :=
+  l = n.log ∨ l = n.dlog ∨
+  (∃ im ∈ n.pending, l = im.log ∨ ∃ t f idx, OMsg.ack t f idx l ∈ im.acks) ∨
+  (∃ t f idx, OMsg.ack t f idx l ∈ n.outbox) ∨
+  (∃ t f idx, OMsg.ack t f idx l ∈ n.dacks) ∨
+  (∃ t v c gh, OMsg.grant t v c gh ∈ n.outbox ∧ gh.vlog = l)
+
 /-- every list of entries that exists in the system -/
 def listsOf (s : PSys) (l : List LEntry) : Prop :=
-  (∃ i, l = (s.nodes i).log) ∨ (∃ i, l = (s.nodes i).dlog) ∨
-  (∃ i, ∃ im ∈ (s.nodes i).pending, l = im.log) ∨
-  (∃ i t f idx, OMsg.ack t f idx l ∈ (s.nodes i).outbox) ∨
-  (∃ a ∈ s.acks, l = a.pre) ∨ (∃ m ∈ s.snaps, l = m.pre) ∨ (∃ t, l = s.llog t)
+  (∃ i, nodeLists (s.nodes i) l) ∨
+  (∃ a ∈ s.acks, l = a.pre) ∨ (∃ m ∈ s.snaps, l = m.pre) ∨ (∃ t, l = s.llog t) ∨
+  (∃ p ∈ s.rgv, l = p.2.vlog) ∨ (∃ t, l = s.elog t)
+
+theorem listsOf_log (s : PSys) (i : Nat) : listsOf s (s.nodes i).log := Or.inl ⟨i, Or.inl rfl⟩
+theorem listsOf_dlog (s : PSys) (i : Nat) : listsOf s (s.nodes i).dlog := Or.inl ⟨i, Or.inr (Or.inl rfl)⟩
+theorem listsOf_acks (s : PSys) (a : Ack) (h : a ∈ s.acks) : listsOf s a.pre := Or.inr (Or.inl ⟨a, h, rfl⟩)
+theorem listsOf_snap (s : PSys) (m : Snap) (h : m ∈ s.snaps) : listsOf s m.pre := Or.inr (Or.inr (Or.inl ⟨m, h, rfl⟩))
+theorem listsOf_llog (s : PSys) (t : Nat) : listsOf s (s.llog t) := Or.inr (Or.inr (Or.inr (Or.inl ⟨t, rfl⟩)))
 
 /-- a released append is a slice of the ghost log of its term, anchored in it -/
 structure MsgOk (s : PSys) (m : App) : Prop where
@@ -42,13 +56,18 @@ theorem invL_init : InvL init := by
   constructor
   · intro l hl
     have : l = [] := by
-      rcases hl with ⟨i, h⟩ | ⟨i, h⟩ | ⟨i, im, him, _⟩ | ⟨i, t, f, idx, h⟩ | ⟨a, ha, _⟩ | ⟨m, hm, _⟩ | ⟨t, h⟩
-      · simpa [init] using h
-      · simpa [init] using h
-      · simp [init] at him
-      · simp [init] at h
+      rcases hl with ⟨i, hn⟩ | ⟨a, ha, _⟩ | ⟨m, hm, _⟩ | ⟨t, h⟩ | ⟨p, hp, _⟩ | ⟨t, h⟩
+      · rcases hn with h | h | ⟨im, him, _⟩ | ⟨t, f, idx, h⟩ | ⟨t, f, idx, h⟩ | ⟨t, v, c, gh, h, _⟩
+        · simpa [init] using h
+        · simpa [init] using h
+        · simp [init] at him
+        · simp [init] at h
+        · simp [init] at h
+        · simp [init] at h
       · simp [init] at ha
       · simp [init] at hm
+      · simpa [init] using h
+      · simp [init] at hp
       · simpa [init] using h
     rw [this]; exact PFL_nil _
   · intro m hm; simp [init] at hm
@@ -73,17 +92,19 @@ theorem logMatching_of_invL {s : PSys} (h : InvL s) (l1 l2 : List LEntry) (h1 : 
     (ht : x.term = y.term) : l1.take (k + 1) = l2.take (k + 1) :=
   PFL_agree (h.pfl l1 h1) (h.pfl l2 h2) hx hy ht
 
-/-! ### frame lemma: a step that does not touch the ghost state -/
+/-! ### frame lemma: a step that does not touch the ghost logs and elections -/
 
 theorem invL_node (s : PSys) (h : InvL s) (i : Nat) (n : PNode) (s' : PSys)
     (hn : s'.nodes = upd s.nodes i n) (hll : s'.llog = s.llog) (hel : s'.elected = s.elected)
+    (helog : s'.elog = s.elog)
     (hacks : ∀ a ∈ s'.acks, a ∈ s.acks ∨ PFL s.llog a.pre)
     (hsn : ∀ m ∈ s'.snaps, m ∈ s.snaps ∨ (PFL s.llog m.pre ∧ ∀ e ∈ m.pre, e.term ≤ m.term))
     (happs : ∀ m ∈ s'.apps, m ∈ s.apps ∨ MsgOk s m)
-    (hlogp : PFL s.llog n.log) (hlogt : ∀ e ∈ n.log, e.term ≤ n.term)
-    (hdlogp : PFL s.llog n.dlog) (hdlogt : ∀ e ∈ n.dlog, e.term ≤ n.dterm)
-    (hpend : ∀ im ∈ n.pending, PFL s.llog im.log ∧ ∀ e ∈ im.log, e.term ≤ im.term)
-    (hout : ∀ t f idx l, OMsg.ack t f idx l ∈ n.outbox → PFL s.llog l)
+    (hrgv : ∀ p ∈ s'.rgv, p ∈ s.rgv ∨ PFL s.llog p.2.vlog)
+    (hnl : ∀ l, nodeLists n l → PFL s.llog l)
+    (hlogt : ∀ e ∈ n.log, e.term ≤ n.term)
+    (hdlogt : ∀ e ∈ n.dlog, e.term ≤ n.dterm)
+    (hpend : ∀ im ∈ n.pending, ∀ e ∈ im.log, e.term ≤ im.term)
     (hrole : n.role = 2 → n.log = s.llog n.term)
     (hcand : n.role = 1 → (n.term, i) ∉ s.elected)
     (hpos : n.role ≠ 0 → 0 < n.term) : InvL s' := by
@@ -92,26 +113,21 @@ theorem invL_node (s : PSys) (h : InvL s) (i : Nat) (n : PNode) (s' : PSys)
   constructor
   · intro l hl
     rw [hll]
-    rcases hl with ⟨j, hj⟩ | ⟨j, hj⟩ | ⟨j, im, him, hj⟩ | ⟨j, t, f, idx, hj⟩ | ⟨a, ha, hj⟩ | ⟨m, hm, hj⟩ | ⟨t, hj⟩
+    rcases hl with ⟨j, hj⟩ | ⟨a, ha, hj⟩ | ⟨m, hm, hj⟩ | ⟨t, hj⟩ | ⟨p, hp, hj⟩ | ⟨t, hj⟩
     · by_cases hji : j = i
-      · subst hji; rw [hnodei] at hj; rw [hj]; exact hlogp
+      · subst hji; rw [hnodei] at hj; exact hnl l hj
       · rw [hnode j hji] at hj; exact h.pfl l (Or.inl ⟨j, hj⟩)
-    · by_cases hji : j = i
-      · subst hji; rw [hnodei] at hj; rw [hj]; exact hdlogp
-      · rw [hnode j hji] at hj; exact h.pfl l (Or.inr (Or.inl ⟨j, hj⟩))
-    · by_cases hji : j = i
-      · subst hji; rw [hnodei] at him; rw [hj]; exact (hpend im him).1
-      · rw [hnode j hji] at him; exact h.pfl l (Or.inr (Or.inr (Or.inl ⟨j, im, him, hj⟩)))
-    · by_cases hji : j = i
-      · subst hji; rw [hnodei] at hj; exact hout t f idx l hj
-      · rw [hnode j hji] at hj; exact h.pfl l (Or.inr (Or.inr (Or.inr (Or.inl ⟨j, t, f, idx, hj⟩))))
     · rcases hacks a ha with ha' | ha'
-      · exact h.pfl l (Or.inr (Or.inr (Or.inr (Or.inr (Or.inl ⟨a, ha', hj⟩)))))
+      · rw [hj]; exact h.pfl _ (listsOf_acks s a ha')
       · rw [hj]; exact ha'
     · rcases hsn m hm with hm' | hm'
-      · exact h.pfl l (Or.inr (Or.inr (Or.inr (Or.inr (Or.inr (Or.inl ⟨m, hm', hj⟩))))))
+      · rw [hj]; exact h.pfl _ (listsOf_snap s m hm')
       · rw [hj]; exact hm'.1
-    · rw [hll] at hj; exact h.pfl l (Or.inr (Or.inr (Or.inr (Or.inr (Or.inr (Or.inr ⟨t, hj⟩))))))
+    · rw [hll] at hj; rw [hj]; exact h.pfl _ (listsOf_llog s t)
+    · rcases hrgv p hp with hp' | hp'
+      · exact h.pfl l (Or.inr (Or.inr (Or.inr (Or.inr (Or.inl ⟨p, hp', hj⟩)))))
+      · rw [hj]; exact hp'
+    · rw [helog] at hj; exact h.pfl l (Or.inr (Or.inr (Or.inr (Or.inr (Or.inr ⟨t, hj⟩)))))
   · intro m hm
     have : MsgOk s m := by
       rcases happs m hm with h1 | h1
@@ -128,7 +144,7 @@ theorem invL_node (s : PSys) (h : InvL s) (i : Nat) (n : PNode) (s' : PSys)
   · intro j
     by_cases hji : j = i
     · subst hji; rw [hnodei]
-      exact ⟨hlogt, hdlogt, fun im him => (hpend im him).2⟩
+      exact ⟨hlogt, hdlogt, hpend⟩
     · rw [hnode j hji]; exact h.tle j
   · intro m hm
     rcases hsn m hm with hm' | hm'
@@ -144,15 +160,10 @@ theorem invL_node (s : PSys) (h : InvL s) (i : Nat) (n : PNode) (s' : PSys)
     · subst hji; rw [hnodei] at hr ⊢; exact hpos hr
     · rw [hnode j hji] at hr ⊢; exact h.pos j hr
 
-/-- shorthands for the facts about node `i` that most events simply carry over -/
-theorem keep_log (s : PSys) (h : InvL s) (i : Nat) : PFL s.llog (s.nodes i).log := h.pfl _ (Or.inl ⟨i, rfl⟩)
-theorem keep_dlog (s : PSys) (h : InvL s) (i : Nat) : PFL s.llog (s.nodes i).dlog :=
-  h.pfl _ (Or.inr (Or.inl ⟨i, rfl⟩))
-theorem keep_pend (s : PSys) (h : InvL s) (i : Nat) :
-    ∀ im ∈ (s.nodes i).pending, PFL s.llog im.log ∧ ∀ e ∈ im.log, e.term ≤ im.term :=
-  fun im him => ⟨h.pfl _ (Or.inr (Or.inr (Or.inl ⟨i, im, him, rfl⟩))), (h.tle i).2.2 im him⟩
-theorem keep_out (s : PSys) (h : InvL s) (i : Nat) :
-    ∀ t f idx l, OMsg.ack t f idx l ∈ (s.nodes i).outbox → PFL s.llog l :=
-  fun t f idx l hl => h.pfl l (Or.inr (Or.inr (Or.inr (Or.inl ⟨i, t, f, idx, hl⟩))))
+/-- every list inside node `i` is prefix-from-leader -/
+theorem keep_node (s : PSys) (h : InvL s) (i : Nat) : ∀ l, nodeLists (s.nodes i) l → PFL s.llog l :=
+  fun l hl => h.pfl l (Or.inl ⟨i, hl⟩)
+theorem keep_log (s : PSys) (h : InvL s) (i : Nat) : PFL s.llog (s.nodes i).log := h.pfl _ (listsOf_log s i)
+theorem keep_dlog (s : PSys) (h : InvL s) (i : Nat) : PFL s.llog (s.nodes i).dlog := h.pfl _ (listsOf_dlog s i)
 
 end RaftModel.P
